@@ -347,3 +347,5 @@ TEXT["C20"].update(
     level=TEXT["C20"]["level"] + " The document (engine B, real serve_leases over a DhcpService with an in-memory pool): for stores of 0, 1, 3 and 5 leases, client identifiers of 0, 1, 2, 6 and 255 octets and host names absent / plain / with quote and backslash / every control character / non-ASCII, plus stored option areas that do not decode (37 listings) the answer is 200 with valid JSON (RFC 8259 parser in the harness) carrying exactly one entry per lease with that lease's ip, client_id, start, expire and host name; a panic of the handler is a failure.")
 TEXT["C03"].update(
     level=TEXT["C03"]["level"] + " 'Never dropped' on the transport that has room (Verus, R9 slice run_tcp_reply): what is written to a TCP client is the reply encoded with a limit of at least 65535 octets (emission-point precondition of TcpStream::write).")
+TEXT["C01"].update(
+    level=TEXT["C01"]["level"] + " The identity itself (Verus, unit dhcpgetters, real bodies): DhcpOptions::get_clientid is Some exactly when option 61 is in the table and returns its octets whatever their number; Dhcp::get_client_id == those octets, else chaddr (the contract client_id_of assumed by unit dhcphandlers).")
